@@ -433,3 +433,48 @@ func HasNestedUnion(t ast.Type, underUnion bool) bool {
 	}
 	return false
 }
+
+// AliasCycle reports whether some object is an alias (a reference) whose chain of
+// references comes back to an alias already visited (A -> A, A -> B -> A, ...).
+func AliasCycle(schemas ast.Schemas) bool {
+	cyclic := false
+	for _, s := range schemas {
+		s.Objects.Iterate(func(_ string, o ast.Object) {
+			t := o.Type
+			for step := 0; step < 6 && t.Kind == ast.KindRef; step++ {
+				target, ok := schemas.LocateObject(t.Ref.ReferredPkg, t.Ref.ReferredType)
+				if !ok {
+					return
+				}
+				t = target.Type
+			}
+			if t.Kind == ast.KindRef {
+				cyclic = true
+			}
+		})
+	}
+	return cyclic
+}
+
+// LocalNameCycle: like AliasCycle but following references the way ast.Schema.Resolve does —
+// by name inside the referring object's own schema, ignoring the referred package
+// (p.Foo = ref q.Foo is looked up as p.Foo again).
+func LocalNameCycle(schemas ast.Schemas) bool {
+	cyclic := false
+	for _, s := range schemas {
+		s.Objects.Iterate(func(_ string, o ast.Object) {
+			t := o.Type
+			for step := 0; step < 6 && t.Kind == ast.KindRef; step++ {
+				target, ok := s.LocateObject(t.Ref.ReferredType)
+				if !ok {
+					return
+				}
+				t = target.Type
+			}
+			if t.Kind == ast.KindRef {
+				cyclic = true
+			}
+		})
+	}
+	return cyclic
+}
